@@ -62,7 +62,7 @@ def new_exec(p: Program) -> ObjExec:
                                    "factory_manager": MObj("<manager>", {k: MObj("<factory>", {"base": b}) for k, b in
                                                                          (("term", "Term"), ("tnorm", "TNorm"), ("snorm", "SNorm"), ("activation", "Activation"),
                                                                           ("defuzzifier", "Defuzzifier"), ("hedge", "Hedge"))})})
-    ex.globals.update({"settings": settings, "nan": NAN, "inf": float("inf"), "np": Opaque("np"), "inspect": Opaque("inspect"), "math": Opaque("math")})
+    ex.globals.update({"settings": settings, "nan": NAN, "inf": float("inf"), "np": Opaque("np"), "inspect": Opaque("inspect"), "math": Opaque("math"), "re": Opaque("re")})
     ex.globals["scalar"] = ex.globals["array"] = lambda ex_, e, args, kw: ex_.to_array(args[0], e)  # numbers stay numbers, sequences become arrays
     ex.func_hooks["ext:np.atleast_2d"] = lambda ex_, e, args, kw: args[0] if isinstance(args[0], Arr) and args[0].ndim == 2 else Arr([list(args[0].data)], 2) \
         if isinstance(args[0], Arr) else Arr([[args[0]]], 2)
@@ -215,7 +215,7 @@ def model_engines(ex: ObjExec, cnt: Counter) -> list[tuple[str, MObj]]:
         T, F = bool(flags), not bool(flags)
         # every flag, optional operator and elidable field in both states; every term class with default and with generic height
         ivs = [C("InputVariable", name="A", description="first input: the one with every term" if T else "", enabled=T, minimum=cnt.sym("lo"), maximum=cnt.sym("hi"), lock_range=F,
-                 terms=all_terms(None if T else (lambda: cnt.sym("h")), "a")),
+                 terms=all_terms(None if T else (lambda: cnt.sym("h")), "a") + [C("Triangle", "élevée_2", cnt.sym("a"), cnt.sym("b"), cnt.sym("c"))]),  # a name beyond ASCII
                C("InputVariable", name="B", description="" if T else "second input", enabled=F, minimum=float("-inf"), maximum=float("inf"), lock_range=T, terms=[])]
         ovs = []
         for j, dc in enumerate(defs):
@@ -354,11 +354,13 @@ def roundtrip(check: Check, rule: str = "RT-sem") -> None:
     cases = 0
     fields_compared = 0
     undecided: list[str] = []
-    for label, eng in engines:
+    runs = [(label, eng, {}) for label, eng in engines]
+    runs.append((engines[1][0] + ", lines separated by ';'", engines[1][1], {"separator": ";"}))  # the separator both classes take as an argument
+    for label, eng, options in runs:
         cases += 1
         try:
-            exporter = ex.instantiate(exp_c, [], {}, E0)
-            importer = ex.instantiate(imp_c, [], {}, E0)
+            exporter = ex.instantiate(exp_c, [], dict(options), E0)
+            importer = ex.instantiate(imp_c, [], dict(options), E0)
             text = ex.invoke(exp_engine, [exporter, eng], {}, E0)
             if not isinstance(text, str):
                 raise Unknown("the exporter does not return a string")
